@@ -4,7 +4,7 @@ from __future__ import annotations
 import ast
 from typing import Dict, Iterable, List, Optional, Set, Tuple
 
-from ..flow import Flow, Resolver, MUTATORS
+from ..flow import AnalysisError, Flow, Resolver, MUTATORS
 from ..repo import Func, Repo
 
 
@@ -721,3 +721,84 @@ def no_unordered_iteration(ctx, modnames: Iterable[str], why: str):
                         elif isinstance(it, ast.Call) and isinstance(it.func, ast.Name) and it.func.id == "sorted" and it.args and isinstance(it.args[0], ast.Attribute) \
                                 and isinstance(it.args[0].value, ast.Name) and it.args[0].value.id == "self" and it.args[0].attr in set_attrs:
                             ctx.ok(f"{cq.split(':')[1]}.{meth.name}/iteration over the set self.{it.args[0].attr} is ordered", f"{repo.modules[m].relpath}:{it.lineno}", nontrivial=False)
+
+
+# --------------------------------------------------------------------------- what a predicate function accepts
+class AcceptCondition:
+    """The condition under which a predicate function returns a truthy value, as a function of the atomic tests it makes -
+    independent of whether it is written as one boolean expression, as guard clauses with early returns, or as an if/elif
+    chain. atoms: canonical texts of the leaves (comparisons, calls, names); accept(v): truth of the result under the
+    valuation v (dict atom -> bool). Leaves are opaque: relations between them (two different type tests cannot both hold)
+    are the caller's business."""
+
+    def __init__(self, fn: ast.AST):
+        from ..flow import canon_atom
+        self.res = Resolver(fn)
+        self.fl = Flow(fn, resolver=self.res).run()
+        self._canon = canon_atom
+        self.rets: List[Tuple[Set[Tuple[str, bool]], Optional[ast.AST]]] = []
+        for n in ast.walk(fn):
+            if isinstance(n, ast.Return):
+                g = self.fl.guards_at(n)
+                if g is None:
+                    continue
+                self.rets.append((set(g), n.value))
+        self._parsed: Dict[str, ast.AST] = {}
+        atoms: Set[str] = set()
+        for g, e in self.rets:
+            for k, _ in g:
+                atoms |= self._leaves(self._parse(k))
+            if e is not None:
+                atoms |= self._leaves(e)
+        self.atoms = sorted(atoms)
+
+    def _parse(self, k: str) -> ast.AST:
+        if k not in self._parsed:
+            try:
+                self._parsed[k] = ast.parse(k, mode="eval").body
+            except SyntaxError:
+                self._parsed[k] = ast.Name(id=k, ctx=ast.Load())
+        return self._parsed[k]
+
+    def _leaf(self, e: ast.AST) -> Tuple[str, bool]:
+        return self._canon(self.res, e, True)
+
+    def _leaves(self, e: ast.AST) -> Set[str]:
+        if isinstance(e, ast.BoolOp):
+            return set().union(*[self._leaves(x) for x in e.values])
+        if isinstance(e, ast.UnaryOp) and isinstance(e.op, ast.Not):
+            return self._leaves(e.operand)
+        if isinstance(e, ast.IfExp):
+            return self._leaves(e.test) | self._leaves(e.body) | self._leaves(e.orelse)
+        if isinstance(e, ast.Constant):
+            return set()
+        return {self._leaf(e)[0]}
+
+    def _ev(self, e: ast.AST, v: Dict[str, bool]) -> bool:
+        if isinstance(e, ast.BoolOp):
+            vals = [self._ev(x, v) for x in e.values]
+            return all(vals) if isinstance(e.op, ast.And) else any(vals)
+        if isinstance(e, ast.UnaryOp) and isinstance(e.op, ast.Not):
+            return not self._ev(e.operand, v)
+        if isinstance(e, ast.IfExp):
+            return self._ev(e.body, v) if self._ev(e.test, v) else self._ev(e.orelse, v)
+        if isinstance(e, ast.Constant):
+            return bool(e.value)
+        k, pol = self._leaf(e)
+        return v[k] == pol
+
+    def accept(self, v: Dict[str, bool]) -> bool:
+        for g, e in self.rets:
+            if all(self._ev(self._parse(k), v) == pol for k, pol in g):
+                return self._ev(e, v) if e is not None else False
+        return False
+
+    def valuations(self, fixed: Dict[str, bool]):
+        import itertools
+        free = [a for a in self.atoms if a not in fixed]
+        if len(free) > 14:
+            raise AnalysisError(f"{len(free)} free conditions in a predicate function")
+        for vals in itertools.product((True, False), repeat=len(free)):
+            v = dict(fixed)
+            v.update(zip(free, vals))
+            yield v
